@@ -21,6 +21,37 @@ add('C15', 'exploration',
     'Python UTF-8 codec; the step from pairs to all strings relies on the prefix-free table (checked exhaustively).',
     'DESIGN.md 4/C15')
 
+add('C18', 'model_checking',
+    'explicit-state search: all sequences (depth 2, thorough 3) of Game.write_cart_data calls whose ends lie within +-2 of '
+    'a region boundary, real object beside a flat-array reference model, full-image comparison after every transition',
+    'Every (start,end) pair around every boundary, accepted and rejected, from two initial contents, chained to depth 2/3; '
+    'states/transitions are counted on the implementation.',
+    'Interior addresses (>2 bytes from all boundaries) are represented by the interior points explored.',
+    'DESIGN.md 5/C18')
+
+add('C16', 'exploration',
+    'bounded-exhaustive unit enumeration of every section codec and the PNG packer against independent reference codecs',
+    'All 65 536 sfx note words, all values of every header/gfx/gff/map/music byte position, all 256x256 stego '
+    '(byte, carrier) pairs per channel, whole-file memory map both directions, PICO-8-written cart pairs.',
+    'Reference codecs in lib/refcodec.py (validated on PICO-8-written carts by tools/validate_ref.py); unit independence.',
+    'DESIGN.md 4/C16')
+
+add('C03', 'exploration',
+    'bounded-exhaustive covering family of carts through the real .p8 writer, an independent .p8 reader and the real reader; '
+    'rewrite identity; write/read chains',
+    'Every unit value of every region/label position, 44 versions, Lua sources with every byte value and byte pairs, '
+    'each written, read back two ways, re-written and chained.',
+    'Unit independence; C15 bijection used to decode __lua__ in the independent reader.',
+    'DESIGN.md 4/C03')
+
+add('C05', 'model_checking',
+    'exhaustive enumeration of code texts through the real encoder judged by an independent :c: decoder, plus explicit-state '
+    'BFS over the space of well-formed streams (incl. overlapping references) comparing the real decoder with the reference',
+    'All strings <=8 (thorough <=11) over a 4-symbol alphabet, macro strings with _update60, window-edge and truncation '
+    'families; decoder BFS to depth 5 (thorough 6) deduplicated on produced output.',
+    'Reference decoder correctness (validated on PICO-8-written carts); offsets restricted to a boundary set per state.',
+    'DESIGN.md 4/C05')
+
 PENDING = {
 }
 
